@@ -1,8 +1,8 @@
 SPECIFICATION Spec
 CONSTANTS
-  Sessions = {"M1", "M2"}
-  Legacy = {}
-  InitOn = {"M1", "M2"}
+  Sessions = {"L1", "M1", "M2"}
+  Legacy = {"L1"}
+  InitOn = {"L1", "M1", "M2"}
   InitSub = {}
   Kinds = {}
   NotifOf <- NotifStd
